@@ -155,6 +155,26 @@ func TestVgC08SM2Level1(t *testing.T) {
 		vgS_TestPrivateKey(k)
 		n++
 	}
+	// shorter encodings (the statement speaks of secrets "of a given length": the length is public, the bytes are not)
+	for _, l := range []int{1, 2, 8, 20, 31} {
+		for variant := 0; variant < 4; variant++ {
+			k := append([]byte{}, vgKey(variant + l)[:l]...)
+			switch variant {
+			case 1:
+				k = make([]byte, l) // zero in this length
+			case 2:
+				for j := 0; j < l/2; j++ {
+					k[j] = 0 // leading zero bytes
+				}
+			case 3:
+				for j := range k {
+					k[j] = 0xff
+				}
+			}
+			vgS_TestPrivateKey(k)
+			n++
+		}
+	}
 	vgNote("scenario TestPrivateKey %d", n)
 }
 
